@@ -173,44 +173,45 @@ func (i *Injector) injectSelfMonitor(cfg *config.Config) {
 }
 
 func (i *Injector) marshal(cfg *config.Config) ([]byte, error) {
-	bTokens := make([]string, 0)
-	password := make([]string, 0)
-
-	for _, w := range cfg.RemoteWriteConfigs {
-		if w.HTTPClientConfig.BearerToken != "" {
-			bTokens = append(bTokens, string(w.HTTPClientConfig.BearerToken))
-		}
-
-		if w.HTTPClientConfig.BasicAuth != nil && w.HTTPClientConfig.BasicAuth.Password != "" {
-			password = append(password, string(w.HTTPClientConfig.BasicAuth.Password))
-		}
-
-	}
-
-	for _, w := range cfg.RemoteReadConfigs {
-		if w.HTTPClientConfig.BearerToken != "" {
-			bTokens = append(bTokens, string(w.HTTPClientConfig.BearerToken))
-		}
-
-		if w.HTTPClientConfig.BasicAuth != nil && w.HTTPClientConfig.BasicAuth.Password != "" {
-			password = append(password, string(w.HTTPClientConfig.BasicAuth.Password))
-		}
-	}
-
 	gen, err := yaml.Marshal(&cfg)
 	if err != nil {
 		return nil, errors.Wrapf(err, "marshal config failed")
 	}
 
-	data := string(gen)
-	for _, token := range bTokens {
-		data = strings.Replace(data, "bearer_token: <secret>", fmt.Sprintf("bearer_token: %s", token), 1)
+	// every secret is marshaled as "<secret>".
+	// the sections that are not generated must keep theirs: take them over from the original content
+	genTree, origTree := yaml.MapSlice{}, yaml.MapSlice{}
+	if err := yaml.Unmarshal(gen, &genTree); err != nil {
+		return nil, errors.Wrapf(err, "unmarshal generated config")
 	}
 
-	for _, pd := range password {
-		data = strings.Replace(data, "password: <secret>", fmt.Sprintf("password: %s", pd), 1)
+	if err := yaml.Unmarshal(i.curCfg.RawContent, &origTree); err != nil {
+		return nil, errors.Wrapf(err, "unmarshal origin config")
 	}
-	return []byte(data), nil
+
+	for _, origin := range origTree {
+		if origin.Key != "alerting" && origin.Key != "remote_write" && origin.Key != "remote_read" {
+			continue
+		}
+
+		found := false
+		for k := range genTree {
+			if genTree[k].Key == origin.Key {
+				genTree[k].Value = origin.Value
+				found = true
+			}
+		}
+
+		if !found {
+			genTree = append(genTree, origin)
+		}
+	}
+
+	data, err := yaml.Marshal(genTree)
+	if err != nil {
+		return nil, errors.Wrapf(err, "marshal config failed")
+	}
+	return data, nil
 }
 
 func (i *Injector) inject() (err error) {
